@@ -8,7 +8,8 @@ Record obs := {
   o_out : bytes;         (* the block's stdout *)
   o_err : bytes;         (* the block's stderr, without the leading "Invalid usage of named pipes" lines *)
   o_complaints : nat;    (* number of those lines *)
-  o_files : files        (* contents afterwards of every file named in the case *)
+  o_files : files;       (* contents afterwards of every file named in the case *)
+  o_pipes : files        (* contents afterwards of every user-named pipe of the case *)
 }.
 
 Record case := { c_stages : list stage; c_files : files; c_obs : obs }.
@@ -25,6 +26,11 @@ Definition file_ids : list N := [0; 1; 2; 3; 4; 5; 6; 7].
 Definition files_eqb (a b : files) : bool :=
   forallb (fun f => obytes_eqb (file_get a f) (file_get b f)) file_ids.
 
+(* ... and named pipes 0..3 (an unused pipe holds nothing) *)
+Definition pipe_ids : list N := [0; 1; 2; 3].
+Definition pipes_eqb (a b : files) : bool :=
+  forallb (fun k => bytes_eqb (pipe_get a k) (pipe_get b k)) pipe_ids.
+
 (* ---------- correspondence: the code-shaped model predicts the observation ---------- *)
 Definition agree (c : case) : bool :=
   match run_block (c_stages c) (c_files c) with
@@ -34,16 +40,18 @@ Definition agree (c : case) : bool :=
       && bytes_eqb (o_err (c_obs c)) (st_err st)
       && Nat.eqb (o_complaints (c_obs c)) (complaints (c_stages c))
       && files_eqb (o_files (c_obs c)) (st_fs st)
+      && pipes_eqb (o_pipes (c_obs c)) (st_pipes st)
   | _ => N.eqb (o_kind (c_obs c)) 1
   end.
 
 (* ---------- the property, written from its text (documentation-shaped) ---------- *)
 (* where the documentation says a command's stdout / stderr bytes go *)
-Inductive dest := ToOut | ToErr | ToNext | Nowhere.
+Inductive dest := ToOut | ToErr | ToNext | ToPipe (k : N) | Nowhere.
 
 Definition dest_eqb (a b : dest) : bool :=
   match a, b with
   | ToOut, ToOut | ToErr, ToErr | ToNext, ToNext | Nowhere, Nowhere => true
+  | ToPipe j, ToPipe k => N.eqb j k
   | _, _ => false
   end.
 
@@ -51,60 +59,76 @@ Definition dest_eqb (a b : dest) : bool :=
 Definition first_out (l : list rname) : option rname := find (fun r => negb (is_bang r)) l.
 Definition first_err (l : list rname) : option rname := find is_bang l.
 
-(* without redirection stdout goes into the pipe if there is one, else to the block's stdout *)
-Definition plain_out (l : link) : dest := match l with Pipe => ToNext | Semi => ToOut end.
+(* without redirection: `|` pipes stdout into the next command; ` ? ` "swaps the two streams of
+   the left hand command": its stderr is piped into the next command and its stdout goes to
+   stderr; otherwise stdout / stderr are the block's *)
+Definition plain_out (l : link) : dest := match l with Pipe => ToNext | QPipe => ToErr | Semi => ToOut end.
+Definition plain_err (l : link) : dest := match l with QPipe => ToNext | _ => ToErr end.
 
-(* `<err>` sends stdout to stderr, `<null>` discards it *)
+(* `<err>` sends stdout to stderr, `<null>` discards it, `<name>` writes it to the named pipe *)
 Definition doc_out (s : stage) : dest :=
   match first_out (s_redirs s) with
   | Some R_err => ToErr
   | Some R_null => Nowhere
+  | Some (R_pipe k) => ToPipe k
   | _ => plain_out (s_link s)
   end.
 
-(* `<!out>` sends stderr to (where) stdout (goes), `<!null>` discards it *)
+(* `<!out>` sends stderr to (where) stdout (goes), `<!null>` discards it, `<!name>` writes it to the named pipe *)
 Definition doc_err (s : stage) : dest :=
   match first_err (s_redirs s) with
   | Some R_bout => plain_out (s_link s)
   | Some R_bnull => Nowhere
-  | _ => ToErr
+  | Some (R_bpipe k) => ToPipe k
+  | _ => plain_err (s_link s)
   end.
 
 Definition sel (d : dest) (s : stage) (o e : bytes) : bytes :=
   (if dest_eqb (doc_out s) d then o else []) ++ (if dest_eqb (doc_err s) d then e else []).
 
-(* expected block stdout, block stderr and files; carry = the bytes piped into the first command *)
-Fixpoint expected (carry : bytes) (l : list stage) (fs : files) : bytes * bytes * files :=
+(* what a command writes to its stdout / stderr, given the bytes piped into it *)
+Definition stage_oe (carry : bytes) (s : stage) : bytes * bytes :=
+  match s_act s with Emit o e => (carry ++ o, e) | _ => ([], []) end.
+
+(* everything the block delivers to destination d, in order; carry = the bytes piped into the first command *)
+Fixpoint collect (d : dest) (carry : bytes) (l : list stage) : bytes :=
   match l with
-  | [] => ([], [], fs)
+  | [] => []
+  | s :: l' => let '(o, e) := stage_oe carry s in sel d s o e ++ collect d (sel ToNext s o e) l'
+  end.
+
+(* the files afterwards *)
+Fixpoint expected_fs (carry : bytes) (l : list stage) (fs : files) : files :=
+  match l with
+  | [] => fs
   | s :: l' =>
-      let '(o, e) := match s_act s with Emit o e => (carry ++ o, e) | _ => ([], []) end in
+      let '(o, e) := stage_oe carry s in
       let fs1 := match s_act s with
                  | Trunc f => file_set fs f carry                  (* exactly the bytes piped in *)
                  | Append f => file_set fs f (match file_get fs f with Some old => old ++ carry | None => carry end)
                  | Emit _ _ => fs
                  end in
-      let '(out', err', fs2) := expected (sel ToNext s o e) l' fs1 in
-      (sel ToOut s o e ++ out', sel ToErr s o e ++ err', fs2)
+      expected_fs (sel ToNext s o e) l' fs1
   end.
 
 Definition spec_ok (c : case) : bool :=
   match last_link (c_stages c) with
-  | Pipe => true                       (* a block ending in a pipe: nothing is claimed *)
   | Semi =>
-      let '(out, err, fs) := expected [] (c_stages c) (c_files c) in
+      let l := c_stages c in
       N.eqb (o_kind (c_obs c)) 0
-      && bytes_eqb (o_out (c_obs c)) out
-      && bytes_eqb (o_err (c_obs c)) err
-      && files_eqb (o_files (c_obs c)) fs
+      && bytes_eqb (o_out (c_obs c)) (collect ToOut [] l)
+      && bytes_eqb (o_err (c_obs c)) (collect ToErr [] l)
+      && files_eqb (o_files (c_obs c)) (expected_fs [] l (c_files c))
+      && forallb (fun k => bytes_eqb (pipe_get (o_pipes (c_obs c)) k) (collect (ToPipe k) [] l)) pipe_ids
+  | _ => true                          (* a block ending in a pipe: nothing is claimed *)
   end.
 
-(* no known finding: the `<!out>` defect (F33) is fixed *)
+(* no known finding: the `<!out>` defect (F33) and the `<err>`-before-`?` defect (F33b) are fixed *)
 Definition classify (c : case) : N := 0%N.
 
 (* the observation the model predicts *)
 Definition model_obs (l : list stage) (fs : files) : obs :=
   match run_block l fs with
-  | Ok st => {| o_kind := 0; o_out := st_out st; o_err := st_err st; o_complaints := complaints l; o_files := st_fs st |}
-  | _ => {| o_kind := 1; o_out := []; o_err := []; o_complaints := O; o_files := fs |}
+  | Ok st => {| o_kind := 0; o_out := st_out st; o_err := st_err st; o_complaints := complaints l; o_files := st_fs st; o_pipes := st_pipes st |}
+  | _ => {| o_kind := 1; o_out := []; o_err := []; o_complaints := O; o_files := fs; o_pipes := [] |}
   end.
